@@ -1,5 +1,6 @@
 import BindgenModel.Lemmas.Reach
 import BindgenModel.Lemmas.Regex
+import BindgenModel.Generated.RootFilter
 /-! # C09 — allow-listing yields a self-contained, minimal, consistent subset
 
 Model: `Model/Reach.lean` (the traversal and root selection of
@@ -315,6 +316,40 @@ theorem C09_file_match_skips_name (o : Options) (it : ItemInfo) (f : List Char)
     · rw [if_pos h2]
     · rw [if_neg h2]
       simp [hf, hne, hm]
+
+/-- **without file patterns the root filter names every item it is asked about**, whatever the type,
+function, variable and item patterns are: once something is allow-listed and no `--allowlist-file` is
+given, the only early answer left is the `replaces` annotation.  The sequence of name requests (hence
+the number every anonymous type gets, `localId`) is then the item order, the same for every choice of
+patterns — region of `anon_type_renumbered` = "a file pattern is given". -/
+theorem C09_names_requested_without_files (o : Options) (it : ItemInfo)
+    (hsome : (o.types.isEmpty && o.functions.isEmpty && o.vars.isEmpty && o.files.isEmpty && o.items.isEmpty) = false)
+    (hf : o.files.isEmpty = true) (hr : it.useInsteadOf = false) :
+    nameRequestedByRootFilter o it = true := by
+  unfold nameRequestedByRootFilter
+  rw [if_neg (by rw [hsome]; decide), if_neg (by rw [hr]; decide)]
+  simp [hf]
+
+/-- hence two allow-lists without file patterns request the same names in the same order -/
+theorem C09_request_order_pattern_independent (o₁ o₂ : Options) (items : List ItemInfo)
+    (h₁ : (o₁.types.isEmpty && o₁.functions.isEmpty && o₁.vars.isEmpty && o₁.files.isEmpty && o₁.items.isEmpty) = false)
+    (h₂ : (o₂.types.isEmpty && o₂.functions.isEmpty && o₂.vars.isEmpty && o₂.files.isEmpty && o₂.items.isEmpty) = false)
+    (f₁ : o₁.files.isEmpty = true) (f₂ : o₂.files.isEmpty = true) :
+    (items.filter (nameRequestedByRootFilter o₁)).map (·.id) = (items.filter (nameRequestedByRootFilter o₂)).map (·.id) := by
+  congr 1
+  apply List.filter_congr
+  intro it _
+  by_cases hr : it.useInsteadOf = true
+  · simp [nameRequestedByRootFilter, h₁, h₂, hr]
+  · have hr' : it.useInsteadOf = false := by simpa using hr
+    rw [C09_names_requested_without_files o₁ it h₁ f₁ hr', C09_names_requested_without_files o₂ it h₂ f₂ hr']
+
+/-- **source obligation**: the closure takes its steps in the modelled order and computes the name as an
+unconditional statement between the file test and the pattern tests (a name computed lazily, only when
+some pattern set is non-empty, would make the numbering depend on the patterns) -/
+theorem C09_root_filter_steps_in_source :
+    rootFilterSteps = ["nothingAllowlisted", "useInsteadOf", "files", "name", "items", "kindMatch"] ∧
+    rootFilterNameUnconditional = true ∧ rootsReversed = true := by decide
 
 /-! ### non-vacuity -/
 
